@@ -139,6 +139,30 @@ def check_eq(case, ctx):
         ctx.label("input-lists-overwritten-after-construction")
         ctx.check((a == twin) is True and build.snapshot(a) == build.snapshot(twin), "definition-follows-callers-lists",
                   "after the caller overwrote the lists it had passed to the setters the shape no longer equals the deep copy taken before")
+    if case["coord"] % 3 == 1:
+        # things done NEXT to the shape do not change it: a converted twin is edited, a knot vector is refused
+        twin = copy.deepcopy(a)
+        sfx_ = [""] if d["kind"] == "curve" else ["_u", "_v", "_w"][:len(d["degree"])]
+        if not d["rational"]:
+            from geomdl import convert
+            conv = convert.bspline_to_nurbs(a)
+            k_ = case["idx"] % len(sfx_)
+            kvc = list(build.kvs_of(conv)[k_])
+            p_, n_ = d["degree"][k_], d["size"][k_]
+            if n_ > p_ + 1:
+                kvc[p_ + 1] = (kvc[p_] + kvc[p_ + 1]) / 2.0
+                setattr(conv, "knotvector" + sfx_[k_], kvc)
+            conv.ctrlpts = [[c + 1.0 for c in q] for q in d["P"]]
+            ctx.label("converted-twin-edited")
+        k2 = (case["idx"] // 3) % len(sfx_)
+        try:
+            setattr(a, "knotvector" + sfx_[k2], [0.0] * len(d["kv"][k2]))          # no non-empty span: cannot be normalised
+        except Exception:
+            ctx.label("knot-vector-refused")
+            ctx.check((a == twin) is True and build.snapshot(a) == build.snapshot(twin), "changed-by-a-refused-or-side-edit",
+                      "after editing a converted twin / a refused knot vector the shape no longer equals the deep copy taken before")
+        else:
+            a = build.make(d, inputs=handed)          # (accepted: start again from a clean shape)
     if case["read"]:
         _ = a.evalpts if d["kind"] == "curve" else None
         if a.rational:
@@ -163,6 +187,8 @@ def check_eq(case, ctx):
         for j, x in enumerate(dv["W"]):
             w[j] = x
         b.weights = w
+        if case["idx"] % 4 == 1:
+            b.ctrlpts = [list(q) for q in dv["P"]]          # the (unchanged) unweighted points are assigned after the new weights
         desc += " (edited in place on a deep copy)"
     elif case["change"] in ("degree", "knot", "coordinate") and case["idx"] % 2 and case.get("oncopy", True):
         # the same change made on a deep copy through the documented setters; the source must not follow the copy
